@@ -74,6 +74,7 @@ void harness(void){
   ogg_int64_t rel=ND_range(0,1L<<22); ASSUME(rel<=pcml[2*tl+1]); ASSUME(tl==1 || rel<pcml[1] || pcml[3]==0 || 1);
   ogg_int64_t pos=before+rel;
   ASSUME(!(tl==0 && rel==pcml[1] && pcml[3]>=0 && rel==pcml[1] ) || 1);
+  vf.pcm_offset=ND_range(-1,1L<<23);   /* the recorded position is arbitrary (may equal the target; it lags the decoder after _ov_getlap) */
   int r=ov_pcm_seek_page(&vf,pos);
   /* the link search picks the LAST link containing pos: pos==end of link 0 belongs to link 1 */
   int in_target = (tl==1) || (rel<pcml[1]);
